@@ -45,4 +45,16 @@ def ratToDec (r : Rat) (d : Nat := 9) : String :=
   let pad := String.ofList (List.replicate (d - fs.length) '0')
   (if neg then "-" else "") ++ toString ip ++ (if d = 0 then "" else "." ++ pad ++ fs)
 
+/-- exact value of a finite IEEE-754 binary32 given by its bit pattern -/
+def f32ToRat (bits : Nat) : Rat :=
+  let sign := bits / 2147483648 % 2
+  let e := bits / 8388608 % 256
+  let m := bits % 8388608
+  let mag : Rat :=
+    if e = 0 then (m : Rat) / ((2 ^ 149 : Nat) : Rat)
+    else
+      let mant : Rat := ((m + 8388608 : Nat) : Rat)
+      if e ≥ 150 then mant * ((2 ^ (e - 150) : Nat) : Rat) else mant / ((2 ^ (150 - e) : Nat) : Rat)
+  if sign = 1 then -mag else mag
+
 end Cte
